@@ -1,10 +1,11 @@
 SPECIFICATION Spec
 CONSTANTS
-  Names = {"f1", "f2"}
+  Names = {"f1", "f2", "f3"}
   Rounds = {0, 1, 2, 3, 4}
   NoFork = NoFork
+  Aliased = FALSE
   Inclusive = FALSE
   MaxOps = 5
-INVARIANTS C43_MissingFork C43_BeforeFork C43_AfterFork
+INVARIANTS CacheCoherent C43_MissingFork C43_BeforeFork C43_AfterFork
 PROPERTIES C43_OnlyOwnerRecords
 CHECK_DEADLOCK FALSE
